@@ -561,6 +561,16 @@ def check_validator_chain(rep, g, oks, errs, F):
             return
     ok = oks[0]
     checks = [norm_check(ex, c, v, F) for (c, v) in ok.conds]
+    # evaluation order: a user predicate is *invoked* only after every validator written before it has been decided
+    # (its result being branched on at the right place is not enough: the call itself may panic or have effects)
+    for i, chk in enumerate(checks):
+        if chk.get('kind') in ('user', 'user_result') and chk.get('call') is not None:
+            key = chk['call'][1]
+            ev = [e for e in ok.events if e[0] == 'usercall' and e[1] == key]
+            if ev:
+                rep.ob('R-ORDER', min(e[2] for e in ev) >= i, g,
+                       f'validator #{i}: the user function is invoked after the {i} validator(s) written before it were decided',
+                       {'decisions_before_the_call': min(e[2] for e in ev), 'expected_at_least': i})
     rep.ob('R-VAL', len(checks) == len(vs), g, 'number of checks on the accepting path equals the number of declared validators',
            {'extracted': len(checks), 'declared': [v['kind'] for v in vs], 'conds': [show(c)[:160] for c, _ in ok.conds]})
     for i, v in enumerate(vs):
